@@ -182,7 +182,8 @@ def canonical_spelling(tree):
        import numpy [as X]          -> the module is known as `np`   (when `np` is not otherwise bound in the module)
        dict() / list() / tuple()    -> {} / [] / ()                  (builtins not rebound in the module)
        range(0, n) / range(0, n, 1) -> range(n)
-       not (a in b) / not (a is b)  -> a not in b / a is not b"""
+       not (a in b) / not (a is b)  -> a not in b / a is not b
+       reduce(lambda a, b: a + b, S, 0) / reduce(operator.add, S, 0)  -> sum(S)"""
     bound = {x.id for x in ast.walk(tree) if isinstance(x, ast.Name) and isinstance(x.ctx, (ast.Store, ast.Del))}
     bound |= {a.arg for x in ast.walk(tree) if isinstance(x, ast.arguments)
               for a in x.posonlyargs + x.args + x.kwonlyargs + [y for y in (x.vararg, x.kwarg) if y]}
@@ -215,6 +216,15 @@ def canonical_spelling(tree):
                             and (len(x.args) == 2 or (isinstance(x.args[2], ast.Constant) and x.args[2].value == 1
                                                       and type(x.args[2].value) is int)):
                         x.args = [x.args[1]]
+                if isinstance(x, ast.Call) and U(x.func) in ('reduce', 'functools.reduce') and len(x.args) == 3 and not x.keywords \
+                        and isinstance(x.args[2], ast.Constant) and x.args[2].value == 0 and type(x.args[2].value) in (int, float) and free('sum'):
+                    # reduce(lambda a, b: a + b, S, 0) / reduce(operator.add, S, 0)  ==  sum(S)
+                    f_ = x.args[0]
+                    plus = U(f_) in ('operator.add', 'add') or (
+                        isinstance(f_, ast.Lambda) and len(f_.args.args) == 2 and not f_.args.defaults and isinstance(f_.body, ast.BinOp)
+                        and isinstance(f_.body.op, ast.Add) and [U(f_.body.left), U(f_.body.right)] == [a_.arg for a_ in f_.args.args])
+                    if plus:
+                        new = ast.Call(func=ast.Name(id='sum', ctx=ast.Load()), args=[x.args[1]], keywords=[])
                 elif isinstance(x, ast.UnaryOp) and isinstance(x.op, ast.Not) and isinstance(x.operand, ast.Compare) \
                         and len(x.operand.ops) == 1 and isinstance(x.operand.ops[0], (ast.In, ast.Is)):
                     new = x.operand
